@@ -49,6 +49,7 @@ func childMain() {
 		os.Exit(4)
 	}
 	ctx := context.Background()
+	before, _ := fs.Get(ctx, o.Addr)
 	crashkit.Mark()
 	switch o.Op {
 	case "P":
@@ -58,6 +59,10 @@ func childMain() {
 	}
 	crashkit.Mark()
 	if err != nil {
+		// an operation that failed must not be visible: the store answers as before
+		if after, gerr := fs.Get(ctx, o.Addr); gerr == nil && after != before {
+			os.Exit(6)
+		}
 		os.Exit(5)
 	}
 	os.Exit(0)
@@ -420,9 +425,12 @@ func runIOErrors(cc crashCase, rec *crashkit.Trace, win []int, oldc, newc []byte
 		c2.K = k
 		c2.Kind = "KE"
 		fail := func(sig, msg string) { run.OracleFail(id, sig, msg, c2) }
-		failed := res.Exit == 5
+		failed := res.Exit == 5 || res.Exit == 6
+		if res.Exit == 6 {
+			fail("ioerr-failed-op-visible", fmt.Sprintf("%s failing with %s made %s(%q) return an error, yet Get on the same store no longer answers as before: the failed operation stays in memory (and reaches the file with the next save)", name, errno, cc.Op.Op, cc.Op.Addr))
+		}
 		switch {
-		case res.Exit != 0 && res.Exit != 5:
+		case res.Exit != 0 && res.Exit != 5 && res.Exit != 6:
 			run.Count("ioerr:child-other-exit")
 		case failed:
 			run.Count("ioerr:operation-failed")
